@@ -1,6 +1,6 @@
 (* C03 — every encoded packet ends with the correct SMBus PEC.  Property theorems only. *)
-Require Import Base Crc Bitfield Headers Encode Decode Process Ops Spec.
-Require Import CrcFacts PecFacts.
+Require Import Base Crc Bitfield Headers Encode Decode Process Ops Spec Judge.
+Require Import CrcFacts PecFacts Hist StepsEncode.
 Open Scope N_scope.
 
 (* (1) For every operation on every context in either overflow mode, a successful encode leaves a buffer whose
@@ -8,6 +8,10 @@ Open Scope N_scope.
 Theorem C03_encoded_packet_ends_with_pec :
   forall ovf c o, s_o (c03_step o (snd (step ovf c o))) = true.
 Proof. exact c03_holds. Qed.
+
+(* (1') the same, as the oracle is run over whole histories *)
+Theorem C03_oracle_holds_on_model : holds_on_model 3.
+Proof. exact c03_holds_hist. Qed.
 
 (* (2) The PEC function is CRC-8 with polynomial x^8+x^2+x+1, init 0, MSB first, no final xor:
    pec l is a remainder of M(x)*x^8 modulo g(x) ... *)
@@ -28,5 +32,6 @@ Example C03_nonvacuous :
 Proof. eexists. split; vm_compute; reflexivity. Qed.
 
 Print Assumptions C03_encoded_packet_ends_with_pec.
+Print Assumptions C03_oracle_holds_on_model.
 Print Assumptions C03_pec_is_polynomial_remainder.
 Print Assumptions C03_remainder_unique.
